@@ -52,8 +52,11 @@ const refPrelude = "def debug: .; def debug(f): (f | empty), .; def stderr: .; "
 // try, ?// or label.
 var detectors = []struct{ sig, prelude string }{
 	{"fromjson-nonstring-input-accepted", `def _c07_fromjson: fromjson; def fromjson: if type == "string" then . else _c07_mark end | _c07_fromjson; `},
-	// repaired in /repo (a038e124): not listed any more, a hit is a violation
-	{"split1-backslash-separator", `def _c07_split($s): split($s); def split($s): if ($s | type) == "string" and type == "string" and ($s | contains("\\")) then _c07_mark else . end | _c07_split($s); `},
+	// (the detector of the repaired backslash-separator defect (a038e124) was
+	// removed: it attributed ANY mismatch of a program that calls split("\\") to
+	// that signature, e.g. one of the listed fromjson class -- a false alarm of
+	// the thorough tier.  A regression of the defect itself is an unlisted generic
+	// mismatch and two pairs of TestSeeds.)
 	// still open: split/1 is a regex split, so bytes that are not valid UTF-8 behave differently
 	{"split1-regex-split-invalid-utf8", `def _c07_split($s): split($s); def split($s): if ($s | type) == "string" and type == "string" and (($s | explode | implode) != $s or (explode | implode) != .) then _c07_mark else . end | _c07_split($s); `},
 }
